@@ -100,6 +100,12 @@ func inlineNewHelpers(p *Prog) ([]string, error) {
 			}
 		}
 	}
+	// the group registrar (the function that files an either/botheq member under its group) is an anchor of
+	// the group rules under whatever name and signature it has: it is modelled, not inlined
+	registrar, regFields := groupRegistrar(p)
+	if regFields == nil {
+		registrar = nil
+	}
 	var notes []string
 	// direct clause writers: a new helper W(buf, a...) that writes into a *strings.Builder exactly the
 	// text a known string constructor K(a...) returns — K's own body having become
@@ -129,7 +135,7 @@ func inlineNewHelpers(p *Prog) ([]string, error) {
 						continue
 					}
 					g := call.Call.StaticCallee()
-					if !isNew(g) || visiting[g] || recursive[g] {
+					if !isNew(g) || visiting[g] || recursive[g] || g == registrar {
 						continue
 					}
 					if ok, _ := ssa.PGVCanInline(call); !ok {
